@@ -108,6 +108,10 @@ ENDINGS = [
     ('raise-KeyError', dict(target='raise_exc', targs=['KeyError', 'k']), ('error', 'KeyError'), False),
     ('raise-Custom', dict(target='raise_exc', targs=['Custom', 'x']), ('error', 'CustomError'), False),
     ('raise-OSError', dict(target='raise_exc', targs=['OSError', 2, 'nope']), ('error', 'FileNotFoundError'), False),
+    ('raise-BrokenPipe', dict(target='raise_exc', targs=['OSError', 32, 'pipe']), ('error', 'BrokenPipeError'), False),
+    ('raise-EOFError', dict(target='raise_exc', targs=['EOFError']), ('error', 'EOFError'), False),
+    ('raise-queue.Empty', dict(target='raise_exc', targs=['queue.Empty']), ('error', 'Empty'), False),
+    ('raise-WTE-by-target', dict(target='raise_exc', targs=['WorkerTerminatedError', 'own']), ('error', 'WorkerTerminatedError'), False),
     ('raise-TwoArg', dict(target='raise_exc', targs=['TwoArg']), ('error', 'TwoArgError'), True),
     ('raise-CustomBase', dict(target='raise_exc', targs=['CustomBase', 'b']), ('error', 'CustomBase'), 'proc'),
     ('raise-SystemExit', dict(target='raise_exc', targs=['SystemExit', 3]), ('error', 'SystemExit'), 'proc'),
